@@ -2,6 +2,7 @@ import Driver.Tf
 import Driver.Op
 import Driver.Body
 import Driver.Engine
+import Driver.Memo
 /-!
   Line-protocol driver.  One request per line:
 
@@ -37,6 +38,7 @@ def engineJudge (eng : String) (args obs : List String) : Bool :=
   | "body" => Body.judge args obs
   | "eng" => Eng.judge args obs
   | "engrep" => Eng.judge args obs
+  | "memo" => Memo.judge args obs
   | "iso" => (match Eng.isoModel args with | some m => m == " ".intercalate obs | none => !obs.contains "PANIC")
   | _ => true
 
